@@ -119,17 +119,32 @@ func (sr *saveRestore) isSaved(v ssa.Value) bool {
 
 // deferRestores: the deferred call is a closure that stores the saved value back into the field.
 func (sr *saveRestore) deferRestores(d *ssa.Defer) bool {
+	var cf *ssa.Function
 	mc, ok := d.Call.Value.(*ssa.MakeClosure)
-	if !ok {
+	if ok {
+		cf = mc.Fn.(*ssa.Function)
+	} else if f, isFn := d.Call.Value.(*ssa.Function); isFn && f.Parent() != nil {
+		cf = f // a literal without captured variables: everything arrives through its parameters
+	} else {
 		return false
 	}
-	cf := mc.Fn.(*ssa.Function)
 	restores := false
 	for _, a := range fieldAccesses(cf, sr.field) {
 		if a.Kind != "store" {
 			continue
 		}
 		st := a.Instr.(*ssa.Store)
+		// value: a parameter of the literal whose argument at the defer statement is the saved value
+		if pa, isP := st.Val.(*ssa.Parameter); isP {
+			if i := paramIndex(cf, pa); i >= 0 && i < len(d.Call.Args) && sr.isSaved(d.Call.Args[i]) {
+				restores = true
+				continue
+			}
+			return false
+		}
+		if mc == nil {
+			return false
+		}
 		// value: load of a free variable bound to a cell holding the saved value
 		ld, ok := st.Val.(*ssa.UnOp)
 		if !ok || ld.Op != token.MUL {
